@@ -78,6 +78,14 @@ CLAIMED = {
             "name are validated as traces; real scikit-learn learners cover the agreement clause.",
             "closest=True excluded (NumPy-2 drift); numeric round trips within 1e-9; LogisticRegression agreement within "
             "solver tolerance."),
+    "C14": ("DESIGN 4/C14",
+            "TLA+ spec NGrams (stop-word filter + n-gram assembly loop; tuple order = joined-string order lemma): TLC "
+            "model checking incl. a negative run + spec->code replay of every case + corpus-level trace validation",
+            "TLC checks the loop against the windowed definition for every document/stop set/range in the bound and the "
+            "ordering lemma on prefix-related tokens; every case is replayed through NGramsMixin._word_ngrams and "
+            "scikit-learn's own; random corpora with all listed options are fitted with the traceable vectorizers and "
+            "their parents and validated by NGramsTrace (vocabulary columns, matrices, counts from the spec's Grams).",
+            "default tokenizer; tf-idf compared for equality with the parent class, not modelled."),
 }
 
 PENDING_REASON = "check not built yet in this round (planned: see DESIGN.md section 4); not claimed until it runs"
